@@ -10,7 +10,7 @@ from vlib.harness import Sub, Violation, call, require, target, value
 PROPERTY_ID = 'C03'
 LEVEL = 'exploration'
 RULE = ('sample recipe (normal, lognormal, bimodal, uniform, integer ties, heavy-tailed t2, exponential, beta; n 5..2000, '
-        'location +-1e3, scale 10^U(-2,3); or a constant sample) x model class with options (GaussianKDE bandwidth '
+        'location +-1e3, scale 10^U(-6,3); or a constant sample) x model class with options (GaussianKDE bandwidth '
         'scott/silverman/factor in (0.05,1], sample_size; TruncatedGaussian with/without enclosing user bounds; Univariate '
         'with candidate lists / parametric+bounded filters; every scipy-backed family) x evaluation points (training '
         'quantiles, far outside, +-inf) x probabilities (uniform, within 10^-k of 0/1 for k<=12, exact 0/1). Oracle: the '
@@ -32,7 +32,7 @@ SHAPES = ['normal', 'lognormal', 'bimodal', 'uniform', 'ties', 'heavy', 'expo', 
 def data_strategy(nmax=2000):
     return st.fixed_dictionaries({
         'shape': st.sampled_from(SHAPES), 'n': st.one_of(st.integers(5, 60), st.integers(5, nmax)), 'seed': S.SEEDS,
-        'loc': st.one_of(st.floats(-1000, 1000), st.sampled_from([0.0, 1000.0])), 'scale_exp': st.floats(-2, 3),
+        'loc': st.one_of(st.floats(-1000, 1000), st.sampled_from([0.0, 0.0, 1000.0])), 'scale_exp': st.one_of(st.floats(-2, 3), st.floats(-6, 3)),
     })
 
 
@@ -234,7 +234,8 @@ def oracle(case):
         delta = 8 * np.finfo(float).eps * np.maximum(np.abs(xc), mag)
         below = f(m, 'cumulative_distribution', xc - delta)
         above = f(m, 'cumulative_distribution', xc + delta)
-        tol = (1e-9 + 1e-9 * rng * dens_c) if kde else (1e-9 if not extreme else 1e-5)
+        # KDE: the root finder resolves x to ~1e-9 of its bracket (C18) and never below a few ulp of |x|
+        tol = (1e-9 + (1e-9 * rng + 16 * np.finfo(float).eps * np.abs(xc)) * dens_c) if kde else (1e-9 if not extreme else 1e-5)
         bad = (below - tol > qc) | (above + tol < qc)
         require(not bad.any(), '%s: percent_point(%r)=%r but cdf just below/above is %r / %r' % (what, qc[bad][:2], xc[bad][:2], below[bad][:2], above[bad][:2]),
                 tag='ppf-inverse')
